@@ -105,7 +105,11 @@ func cmdDebug(args []string) {
 			u.VerifyFunc()
 		}()
 		u.finish()
-		fmt.Printf("== %s: paths=%d pruned=%d queries=%d obligations=%d %.2fs\n", u.Name, u.paths, u.pruned, u.queries, len(u.obs), time.Since(t0).Seconds())
+		ss := 0.0
+		if u.sol != nil {
+			ss = u.sol.secs
+		}
+		fmt.Printf("== %s: paths=%d pruned=%d queries=%d obligations=%d %.2fs (solver %.2fs, %d decls)\n", u.Name, u.paths, u.pruned, u.queries, len(u.obs), time.Since(t0).Seconds(), ss, len(u.decls))
 		for _, o := range u.sortedObligs() {
 			status := "ok"
 			if len(o.Failures) > 0 {
@@ -118,6 +122,10 @@ func cmdDebug(args []string) {
 				fmt.Println("      dumped", path)
 				fmt.Println("      trace:", strings.Join(f.Trace, " "))
 			}
+		}
+		if os.Getenv("GOVC_DECLS") != "" {
+			os.MkdirAll("/verif/out/debug", 0o755)
+			os.WriteFile("/verif/out/debug/decls_"+sanitize(u.Name)+".smt2", []byte(strings.Join(u.decls, "\n")), 0o644)
 		}
 		for _, e := range u.errs {
 			fmt.Println("   ERROR:", e)
